@@ -4,6 +4,7 @@
   AuthModel.MemStore and AuthModel.Redis (command sequences over a hash+TTL server).
 -/
 import AuthProofs.StoreSeq
+import AuthProofs.RedisCmd
 namespace AuthProps.C12
 open AuthModel
 
@@ -109,6 +110,69 @@ example : ∀ x ∈ demoOps, WFOp (fun _ => true) x.2 := by
   intro x hx; simp [demoOps] at hx
   rcases hx with h | h | h | h | h | h | h | h | h <;> subst h <;> simp [WFOp, Redis.TokOK, Redis.AuthOK, tokX, authX, B]
 
+/-! ### Redis at the level of commands, with faults (AuthModel/Store/RedisCmd.lean) -/
+section Faults
+open RedisCmd Redis
+
+/-- REPORTED SUCCESS IS THE FAULT-FREE BEHAVIOUR (command level, any fault script). If a write method of the Redis store
+    returns nil although commands may fail - before or after taking effect on the server - then no command failed, and
+    state and result are those of the functional model `Store/Redis.lean` the refinement theorems are about. -/
+theorem redis_write_success_is_faultfree (abs idle now : Int) (fs : List Fault) (h : RHash) :
+    (∀ t, (run now fs (setTokP abs idle now t) (visible now h)).res = true →
+        ((run now fs (setTokP abs idle now t) (visible now h)).state, true) = Redis.setTok abs idle now t h) ∧
+    (∀ a, (run now fs (setAuthP abs idle now a) (visible now h)).res = true →
+        ((run now fs (setAuthP abs idle now a) (visible now h)).state, true) = Redis.setAuth abs idle now a h) ∧
+    ((run now fs (clearAuthP abs idle now) (visible now h)).res = true →
+        ((run now fs (clearAuthP abs idle now) (visible now h)).state, true) = Redis.clearAuth abs idle now h) := by
+  have key : ∀ (p : RP Bool), Strict isFail p → ∀ s, (run now fs p s).res = true → run now fs p s = run now [] p s := by
+    intro p hp s hok
+    apply run_unfaulted
+    cases hf : (run now fs p s).faulted with
+    | false => rfl
+    | true => have := hp now fs s hf; simp [isFail, hok] at this
+  refine ⟨fun t hok => ?_, fun a hok => ?_, fun hok => ?_⟩
+  · have e := key _ (setTokP_strict abs idle now t) _ hok
+    rw [e] at hok ⊢; rw [← setTokP_nil, hok]
+  · have e := key _ (setAuthP_strict abs idle now a) _ hok
+    rw [e] at hok ⊢; rw [← setAuthP_nil, hok]
+  · have e := key _ (clearAuthP_strict abs idle now) _ hok
+    rw [e] at hok ⊢; rw [← clearAuthP_nil, hok]
+
+/-- the same for the reads: an answer other than an error is the fault-free answer -/
+theorem redis_read_success_is_faultfree (parses : Str → Bool) (abs idle now : Int) (fs : List Fault) (h : RHash) :
+    ((run now fs (getTokP parses abs idle now) (visible now h)).res ≠ .err →
+        ((run now fs (getTokP parses abs idle now) (visible now h)).state,
+         (run now fs (getTokP parses abs idle now) (visible now h)).res) = Redis.getTok parses abs idle now h) ∧
+    ((run now fs (getAuthP abs idle now) (visible now h)).res ≠ .err →
+        ((run now fs (getAuthP abs idle now) (visible now h)).state,
+         (run now fs (getAuthP abs idle now) (visible now h)).res) = Redis.getAuth abs idle now h) := by
+  have key : ∀ {α : Type} (p : RP (SRes α)), Strict isErr p → ∀ s, (run now fs p s).res ≠ .err → run now fs p s = run now [] p s := by
+    intro α p hp s hok
+    apply run_unfaulted
+    cases hf : (run now fs p s).faulted with
+    | false => rfl
+    | true => exact absurd (hp now fs s hf) hok
+  refine ⟨fun hok => ?_, fun hok => ?_⟩
+  · rw [key _ (getTokP_strict parses abs idle now) _ hok]; exact getTokP_nil ..
+  · rw [key _ (getAuthP_strict abs idle now) _ hok]; exact getAuthP_nil ..
+
+/-- A FAILED COMMAND IS NEVER REPORTED AS SUCCESS: every method of the Redis store, under every fault script -/
+theorem redis_fault_is_error (parses : Str → Bool) (abs idle now : Int) (fs : List Fault) (h : RHash) :
+    (∀ t, (run now fs (setTokP abs idle now t) h).faulted = true → (run now fs (setTokP abs idle now t) h).res = false) ∧
+    (∀ a, (run now fs (setAuthP abs idle now a) h).faulted = true → (run now fs (setAuthP abs idle now a) h).res = false) ∧
+    ((run now fs (clearAuthP abs idle now) h).faulted = true → (run now fs (clearAuthP abs idle now) h).res = false) ∧
+    ((run now fs removeP h).faulted = true → (run now fs removeP h).res = false) ∧
+    ((run now fs (getTokP parses abs idle now) h).faulted = true → (run now fs (getTokP parses abs idle now) h).res = .err) ∧
+    ((run now fs (getAuthP abs idle now) h).faulted = true → (run now fs (getAuthP abs idle now) h).res = .err) :=
+  ⟨fun t => setTokP_strict abs idle now t now fs h, fun a => setAuthP_strict abs idle now a now fs h,
+   clearAuthP_strict abs idle now now fs h, removeP_strict now fs h,
+   getTokP_strict parses abs idle now now fs h, getAuthP_strict abs idle now now fs h⟩
+
+/-- the command sequences of the fault-free methods (compared with the commands the real client issues) -/
+example : (run 5 [] (setTokP 10 4 5 { idToken := B "i", accessToken := B "a" }) {}).issued
+    = ["hset", "hset", "hdel", "hsetnx", "hget", "expireat"] := by decide
+end Faults
+
 end AuthProps.C12
 
 #print axioms AuthProps.C12.memory_refines_spec
@@ -130,3 +194,6 @@ end AuthProps.C12
 #print axioms AuthProps.C12.first_write_sets_created
 #print axioms AuthProps.C12.replica_irrelevant
 #print axioms AuthProps.C12.redis_clear_absent
+#print axioms AuthProps.C12.redis_write_success_is_faultfree
+#print axioms AuthProps.C12.redis_read_success_is_faultfree
+#print axioms AuthProps.C12.redis_fault_is_error
